@@ -400,3 +400,82 @@ def build_whole_unit(uid, prop, variant="A"):
 
 build_whole_unit("C10.build_end_to_end", "C10")
 build_whole_unit("C10.build_end_to_end.per_chain_states", "C10", "B")
+
+
+def rebuild_unit(uid, prop):
+    @unit(uid, prop, [f"{B}.__init__", f"{B}.set_epochs", f"{B}.set_duration", f"{B}.set_model", f"{B}.set_initial_values", f"{B}.add_kernel", f"{B}.build", f"{E}.__init__",
+                      "liesel/goose/epoch.py::EpochManager.__init__", "liesel/goose/epoch.py::EpochManager.append"],
+          summaries=["liesel/goose/warmup.py::stan_epochs (C16.stan_epochs): returns a valid schedule; here a fixed one with durations 75, 25, 90, 10, 100"],
+          assumptions=["A-VMAP / A-JIT", "history: set_epochs(A) - build - set_duration(...) - build - set_epochs(C) - build on ONE builder (REAL constructor and methods), "
+                       "reading the builder's public attributes in between"], max_paths=64)
+    def u(ip):
+        """a builder that is RE-USED: after the schedule is replaced (by set_duration or set_epochs) the next build() hands the engine the new schedule
+        and a chunk length that divides every non-initial duration OF THAT schedule (nothing remembered from an earlier build)."""
+        c = ip.ctx
+        from contracts.c07 import IDENTS, ghost_kernel, install_engine_models
+        install_engine_models(ip)
+        key_models(ip)
+        ip.models["jax.jit"] = lambda ip_, f, **kw: f
+        ip.models["isinstance:jax.Array"] = lambda ip_, x: (is_z3(x) and x.sort() == U) or (isinstance(x, PyObj) and x.name == "keys")
+        ip.opaque_attr["shape"] = lambda ip_, v: (2,)
+
+        def split(ip_, key, num=2):
+            n = ip_.conc_int(num)
+            kids = [ip_.uf("split", ip_.to_U(key), z3.IntVal(i)) for i in range(n)]
+            return PyObj("keys", shape=(n, 2), parent=ip_.to_U(key), kids=kids, __getitem__=PyFn(lambda ip2, i: kids[ip2.conc_int(i)], "keys[]"), __len__=PyFn(lambda ip2: n, "len"))
+
+        ip.models["jax.random.split"] = split
+        ip.models["to_U:keys"] = None
+        ip.summaries["liesel/goose/pytree.py::stack_leaves"] = lambda ip_, args, kwargs: ip_.uf("stack", *[ip_.to_U(x) for x in ip_.iterate(args[0])])
+        EC = ip.repo("liesel/goose/epoch.py::EpochConfig")
+        mk = lambda sched: [ip.call(EC, [t, d, th, None], {}) for t, d, th in sched]  # noqa: E731
+        A = mk(((0, 1, 1), (3, 6, 1), (4, 9, 1)))
+        Bs = mk(((0, 1, 1), (1, 75, 1), (2, 25, 1), (2, 90, 1), (1, 10, 1), (4, 100, 1)))
+        C = mk(((0, 1, 1), (3, 14, 1), (4, 21, 7)))
+        ip.summaries["liesel/goose/warmup.py::stan_epochs"] = lambda ip_, args, kwargs: list(Bs)
+        model = PyObj("model",
+                      extract_position=PyFn(lambda ip_, keys, st: {k: ip_.uf("extract", z3.Const(f"str:{k}", U), ip_.to_U(st)) for k in keys}, "extract_position"),
+                      update_state=PyFn(lambda ip_, pos, st: ip_.uf("update_state", ip_.to_U(pos), ip_.to_U(st)), "update_state"))
+        trace = []
+        ks = [ghost_kernel(ip, i, trace, idt) for i, idt in enumerate(["k0", "k1"])]
+        for k in ks:
+            k.attrs["_model"] = None
+            k.attrs["has_model"] = PyFn(lambda ip_, k=k: k.attrs["_model"] is not None, "has_model")
+            k.attrs["set_model"] = PyFn(lambda ip_, m, k=k: k.attrs.__setitem__("_model", m), "set_model")
+        b = ip.call(ip.repo(B), [c.fresh("seed", Int), 2], {})
+        ip.call(method(ip, b, "set_model"), [model], {})
+        ip.call(method(ip, b, "set_initial_values"), [z3.Const("initial_state", U)], {})
+        for k in ks:
+            ip.call(method(ip, b, "add_kernel"), [k], {})
+        ip.setattr(b, "show_progress", False)
+        import math as _m
+        for step, (how, sched) in enumerate((("set_epochs", A), ("set_duration", Bs), ("set_epochs", C))):
+            if how == "set_epochs":
+                ip.call(method(ip, b, "set_epochs"), [list(sched)], {})
+            else:
+                ip.call(method(ip, b, "set_duration"), [200, 100], {"term_duration": 10})
+            # what a user may look at between the calls
+            for attr in ("epochs", "kernels", "engine_seed"):
+                try_call(ip, PyFn(lambda ip_, attr=attr: ip_.getattr(b, attr), "read"), [])
+            kind, eng = try_call(ip, method(ip, b, "build"), [], {})
+            c.oblige(f"build_{step}_succeeds", kind == "ok", raised=str(getattr(eng, "cls", "")))
+            if kind != "ok":
+                return
+            durs = [e.f["duration"] for e in sched[1:]]
+            g_ = _m.gcd(*durs)
+            jd = eng.f["_jitted_sample_duration"]
+            c.oblige(f"build_{step}_chunk_is_gcd_of_the_current_schedule", (jd == g_) if is_z3(jd) else jd == g_, got=str(jd), want=g_)
+            mgr = eng.f["_epoch_manager"]
+            got = [ip.call(method(ip, mgr, "next"), [], {}) for _ in sched]
+            c.oblige(f"build_{step}_engine_gets_the_current_schedule", all(got[i].f["config"] is sched[i] for i in range(len(sched)))
+                     and ip.truth(ip.call(method(ip, mgr, "has_more"), [], {})) is False)
+    return u
+
+
+rebuild_unit("C10.builder_reused_after_schedule_change", "C10")
+
+
+# the engine constructor: every chain's kernels are initialised from THAT chain's model state and its own key (same harness as C07.engine_init)
+from contracts.c07 import engine_init_unit  # noqa: E402
+
+engine_init_unit("C10.engine_init", "C10")
